@@ -28,7 +28,9 @@ echo "[$P/$X] demo with change:    $demo_with"
 echo "[$P/$X] demo without change: $demo_without"
 # --- scratch repo + scratch harness
 if [ ! -d /tmp/seedrepo ]; then git -C /repo worktree add --detach /tmp/seedrepo HEAD -q; cp /repo/Cargo.lock /tmp/seedrepo/; fi
-git -C /tmp/seedrepo checkout -q --detach "$(git -C /repo rev-parse HEAD)" 2>/dev/null; git -C /tmp/seedrepo checkout -q -- .
+# the change is evaluated on the commit it was written against (the agent worktree's HEAD)
+BASE=$(git -C $WT rev-parse HEAD)
+git -C /tmp/seedrepo checkout -q -- . ; git -C /tmp/seedrepo checkout -q --detach "$BASE"
 mkdir -p /tmp/seedharness /tmp/seedroot
 rsync -a --delete --exclude target /verif/harness/ /tmp/seedharness/
 sed -i 's#/repo/rtmp#/tmp/seedrepo/rtmp#; s#/repo/amf0#/tmp/seedrepo/amf0#' /tmp/seedharness/Cargo.toml
@@ -45,11 +47,11 @@ done
 git -C /tmp/seedrepo checkout -q -- .
 D=/verif/seeded/${P}_$X$SUFFIX; mkdir -p $D
 cp "$S/$X.diff" $D/patch.diff; cp "$S/${X}_demo.rs" $D/demo.rs
-python3 - "$P" "$X" "$crate" "$suite" "$demo_with" "$demo_without" "[${results%,}]" "$D/meta.json" "$feat" <<'PY'
+python3 - "$P" "$X" "$crate" "$suite" "$demo_with" "$demo_without" "[${results%,}]" "$D/meta.json" "$feat" "$BASE" <<'PY'
 import sys, json
-P,X,crate,suite,dw,dwo,results,outp,feat = sys.argv[1:]
+P,X,crate,suite,dw,dwo,results,outp,feat,base = sys.argv[1:]
 meta = {
- "breaks_property": P, "variant": X, "origin": "independent sub-agent given only the property text and a scratch worktree",
+ "breaks_property": P, "variant": X, "base_commit_of_repo": base, "origin": "independent sub-agent given only the property text and a scratch worktree",
  "demo": {"file": "demo.rs", "goes_in": f"{crate}/tests/", "cargo_flags": feat, "with_change": dw, "without_change": dwo},
  "existing_suite_with_change": suite,
  "what_it_needs_to_manifest": "see notes.md (section %s)" % X,
